@@ -25,6 +25,12 @@ theorem selBy_length_le (p : Econf.Entry → Bool) (es : List Econf.Entry) (i : 
     _ ≤ (List.range i).length := List.length_filter_le _ _
     _ = i := List.length_range
 
+theorem selBy_length_mono (p : Econf.Entry → Bool) (es : List Econf.Entry) {i n : Nat} (h : i ≤ n) : (selBy p es i).length ≤ (selBy p es n).length := by
+  obtain ⟨d, rfl⟩ : ∃ d, n = i + d := ⟨n - i, by omega⟩
+  unfold selBy
+  rw [List.range_add, List.filter_append, List.filterMap_append, List.length_append]
+  omega
+
 theorem selBy_model (p : Econf.Entry → Bool) (es : List Econf.Entry) :
     selBy p es es.length = (Econf.firstDefs es).filter p := by
   unfold selBy Econf.firstDefs
@@ -191,7 +197,7 @@ structure AgCtx (m0 : Mem) (bk bl0 fa cell bu bua be bea : Nat) (us es : List Ec
   bk_lt : bk < m0.length
   bl_lt : bl0 < m0.length
   fa_ne : fa ≠ bk ∧ fa ≠ bl0
-  room : start + es.length ≤ cap
+  room : start + (selBy (agP us) es es.length).length ≤ cap
   small : (gl0len : Int) + es.length + 2 < 2147483648
   usmall : (us.length : Int) + 1 < 18446744073709551616
   ssmall : (start : Int) + es.length + 1 < 18446744073709551616
@@ -320,7 +326,12 @@ theorem ag_round {m0 : Mem} {bk bl0 fa cell bu bua be bea : Nat} {us es : List E
         obtain ⟨m', bl'', gl'', hex, hEnt, hG', hnames, hfr, ⟨ablk', b1, b2, b3, b4, b5, b6⟩, hlen', hblor, hkw', hne', hd', hgll, hfreshv⟩ :=
           C_fe_append (mem ++ [noneLit]) bk bl' cell fa bea (7 * i) gl' es[i] _ _ agSrc (.incdec (.var 5) true true .u64) 7 (start + (selBy (agP us) es i).length) cap
             d1 hE d3 d4 d5 (by omega) (C.lines _ (List.getElem_mem hi)) fuel (by omega) rfl rfl (by simp) (by decide) hsrc hidx rfl
-            cblk hcM c2 c3 ⟨hcav.1, hbl'ne cell hclt hcav.2.1⟩ ablk a1 a2 a3 a5 a4 ⟨C.fa_ne.1, hbl'ne fa C.fa_lt C.fa_ne.2⟩ (by have := C.room; omega)
+            cblk hcM c2 c3 ⟨hcav.1, hbl'ne cell hclt hcav.2.1⟩ ablk a1 a2 a3 a5 a4 ⟨C.fa_ne.1, hbl'ne fa C.fa_lt C.fa_ne.2⟩ (by
+              have hr := C.room
+              have h1' := selBy_length_mono (agP us) es (i := i + 1) (n := es.length) (by omega)
+              rw [selBy_succ _ es i hi, hsel] at h1'
+              simp at h1'
+              omega)
         refine ⟨_, { mem := m', loc := agLoc bk cell bu be start (start + (selBy (agP us) es i).length + 1) i (.ptr (mem ++ [noneLit]).length 0) (.int 1) (.int 0) }, _, htest, Or.inl ?_, ag_step m' _ _ _ _ _ _ _ _ _ i hsmallstep, ?_⟩
         · unfold agBody; rw [exec_seq_normal hcF]
           unfold agInner; rw [exec_seq_normal hinl, exec_ite_true hnot, exec_seq_normal hinl8]
@@ -465,7 +476,8 @@ theorem add_new_groups_exec (m : Mem) (bk bl0 fa cell bu bua be bea : Nat) (us e
       (∃ ablk', m'[fa']? = some ablk' ∧ ablk'.live = true ∧ ∀ k, k < 7 * start → ablk'.slots[k]? = ablk0.slots[k]?) ∧
       (∀ j (h : j < (selBy (agP us) es es.length).length),
         EntMem m' fa' (7 * (start + j)) (Econf.cpyEntry ((selBy (agP us) es es.length)[j])) [bk, bl']) ∧
-      (∀ b, b < m.length → b ∉ [bk, bl0, fa, cell] → m'[b]? = m[b]?) ∧ m.length ≤ m'.length := by
+      (∀ b, b < m.length → b ∉ [bk, bl0, fa, cell] → m'[b]? = m[b]?) ∧ m.length ≤ m'.length ∧
+      (bl' = bl0 ∨ m.length ≤ bl') ∧ fa' ≠ bk ∧ fa' ≠ bl' := by
   have hss := C.ssmall
   have wS : wrapTo .u64 (start : Int) = (start : Int) := wrapTo_u64_small _ (by omega) (by omega)
   have w0 : wrapTo .u64 0 = 0 := wrapTo_u64_small 0 (by decide) (by decide)
@@ -524,7 +536,10 @@ theorem add_new_groups_exec (m : Mem) (bk bl0 fa cell bu bua be bea : Nat) (us e
       rw [exec_ite_true htl, hbody0, hre]
     rw [exec_seq_normal hmain]
     refine ⟨memR, agLoc bk cell bu be start (start + (selBy (agP us) es es.length).length) es.length v7 v8 v9, bl', gl', fa, by simp [exec, evalE, evalL, readPlace, bind, Except.bind], d1, d7, ⟨cblk, hcR, c2, c3⟩, ⟨ablk, a1, a2, a6⟩, d8,
-      fun b hb hav => hagree b hb (by simp only [List.mem_cons, List.not_mem_nil, or_false, not_or] at hav ⊢; exact ⟨hav.1, hav.2.1, hav.2.2.1⟩), hgrows⟩
+      fun b hb hav => hagree b hb (by simp only [List.mem_cons, List.not_mem_nil, or_false, not_or] at hav ⊢; exact ⟨hav.1, hav.2.1, hav.2.2.1⟩), hgrows, d2, C.fa_ne.1, by
+        rcases d2 with e | e
+        · rw [e]; exact C.fa_ne.2
+        · have := C.fa_lt; omega⟩
   · -- the array is cut to its final size: a new block, the cell points to it
     have hroom := C.room
     have hcs := C.csmall
@@ -600,7 +615,7 @@ theorem add_new_groups_exec (m : Mem) (bk bl0 fa cell bu bua be bea : Nat) (us e
       ⟨_, hcell', c2, by simp [List.getElem?_set, hsl]⟩,
       ⟨_, hnew, rfl, fun k hk => by
         show (ablk.slots.take (7 * (start + (selBy (agP us) es es.length).length)))[k]? = _
-        rw [List.getElem?_take_of_lt (by omega)]; exact a6 k hk⟩, ?_, ?_, by rw [List.length_set, hlen1]; omega⟩
+        rw [List.getElem?_take_of_lt (by omega)]; exact a6 k hk⟩, ?_, ?_, by rw [List.length_set, hlen1]; omega, d2, by omega, by omega⟩
     · intro j hj
       refine (d8 j hj).reblock a1 hnew rfl (fun k hk => ?_) (fun b str hc _ => hstr b str hc) (fun b _ hb => hb) ?_
       · show (ablk.slots.take (7 * (start + (selBy (agP us) es es.length).length)))[7 * (start + j) + k]? = _
@@ -629,8 +644,9 @@ theorem C_add_new_groups (m : Mem) (bk bl0 fa cell bu bua be bea : Nat) (us es :
       (∃ cblk', m'[cell]? = some cblk' ∧ cblk'.live = true ∧ cblk'.slots[0]? = some (.ptr fa' 0)) ∧
       (∃ ablk', m'[fa']? = some ablk' ∧ ablk'.live = true ∧ ∀ k, k < 7 * start → ablk'.slots[k]? = ablk0.slots[k]?) ∧
       (∀ j (h : j < (Econf.addNewGroups us es).length), EntMem m' fa' (7 * (start + j)) ((Econf.addNewGroups us es)[j]) [bk, bl']) ∧
-      (∀ b, b < m.length → b ∉ [bk, bl0, fa, cell] → m'[b]? = m[b]?) ∧ m.length ≤ m'.length := by
-  obtain ⟨m', loc', bl', gl', fa', hex, hG', hn, hc, ha, hE, hfr, hlen'⟩ :=
+      (∀ b, b < m.length → b ∉ [bk, bl0, fa, cell] → m'[b]? = m[b]?) ∧ m.length ≤ m'.length ∧
+      (bl' = bl0 ∨ m.length ≤ bl') ∧ fa' ≠ bk ∧ fa' ≠ bl' := by
+  obtain ⟨m', loc', bl', gl', fa', hex, hG', hn, hc, ha, hE, hfr, hlen', hextra⟩ :=
     add_new_groups_exec m bk bl0 fa cell bu bua be bea us es gl0 cap start C hcw hG hkw hne hd ablk0 ha1 ha2 ha3 ha4 ha5 fuel hf
   have hm := agSel_model us es
   have hlen : (Econf.addNewGroups us es).length = (selBy (agP us) es es.length).length := by rw [← hm]; simp
@@ -639,7 +655,7 @@ theorem C_add_new_groups (m : Mem) (bk bl0 fa cell bu bua be bea : Nat) (us es :
     apply List.map_congr_left
     intro e _
     simp [Econf.cpyEntry]
-  refine ⟨m', loc', bl', gl', fa', by rw [hlen]; exact hex, hG', by rw [hgrp]; exact hn, hc, ha, ?_, hfr, hlen'⟩
+  refine ⟨m', loc', bl', gl', fa', by rw [hlen]; exact hex, hG', by rw [hgrp]; exact hn, hc, ha, ?_, hfr, hlen', hextra⟩
   intro j hj
   have hj' : j < (selBy (agP us) es es.length).length := by omega
   have : (Econf.addNewGroups us es)[j] = Econf.cpyEntry ((selBy (agP us) es es.length)[j]) := by simp [← hm]
@@ -674,7 +690,7 @@ theorem run_add : ∃ m' loc' bl' gl' fa', exec 10 LeafFns.add_new_groups.body
       { mem := mem, loc := [.ptr 0 0, .ptr 2 0, .ptr 4 0, .ptr 9 0, .int 0, .undef, .undef, .undef, .undef, .undef] } = .ret (.int 1) { mem := m', loc := loc' } ∧
     GlMem m' 0 bl' gl' ∧ gl'.map (·.2) = [[66]] ∧
     EntMem m' fa' 0 { group := [66], key := [121], value := none, cb := none, ca := none, line := 5, quotes := false } [0, bl'] := by
-  obtain ⟨m', loc', bl', gl', fa', hex, hG, hn, _, _, hE, _, _⟩ :=
+  obtain ⟨m', loc', bl', gl', fa', hex, hG, hn, _, _, hE, _, _, _⟩ :=
     C_add_new_groups mem 0 1 3 2 4 5 9 10 us es [] 3 0 ctx_add (fun cblk hb => by cases hb; exact ⟨rfl, rfl⟩) dest_ok
       (fun blk hb => by cases hb; rfl) (by decide) (fun x hx => by cases hx) _ rfl rfl rfl rfl rfl 10 (by decide)
   rw [model_add] at hex hn hE
